@@ -244,7 +244,8 @@ def check(run):
             tot_s += ns
     run.extra['graph_edges'] = tot_e
     run.extra['graph_states_with_successors'] = tot_s
-    from . import c10_api
+    from . import c10_api, c10_memo
+    c10_memo.memo_histories(run)
     c10_api.histories(run)
     if not run.samples:
         run.samples.append({'note': 'no sample'})
